@@ -18,7 +18,7 @@ func init() {
 		Level: "other",
 		Explanation: "Decided (structural necessary conditions of structurally lossless Markdown): (R15.1) in each of the seven table writers every cell text that reaches the output passed an escape of '|' and of newline (strings.ReplaceAll chains or a helper that handles both; helpers are checked too); (R15.2) the count of every strings.Repeat(\"#\", n) in the option-taking writers is proven >= 1 and <= 6 at the call, and is clamped by MaxHeadingLevel after the offset was added; (R15.3) DOCX/ODT tables are padded to a column count taken over all rows, not only the first. " +
 			"Not decided: that a GFM parser reads back the same grid for merged cells, list nesting and numbering, loss of body text.",
-		Rules: []func(*eng.Ctx){truncateAfterHandOutRule("R15.TR", "htmldoc", "docx", "odt", "pptx", "xlsx", "rag", "model"), rulePipeTablesReadBack, ruleCellEscapersEvaluated, ruleChunkBodyWrittenUnconditionally, ruleTableCellOnOneLine, ruleTextlessItemKeepsNestedLists, ruleHeaderRowNotRepeated, ruleContentStylesWin, ruleFirstRowIsLoopStart, loopVarRule("R15.LV", "model", "docx", "odt", "htmldoc", "pptx", "xlsx", "epubdoc"), ruleCellEscape, ruleHeadingClamp, ruleColumnCount, roleRule("R15.R", "model", "docx", "odt", "htmldoc", "pptx"), ruleHeadingBeforeList, ruleRowCellsComplete, ruleListKindPerLevel, ruleIndentFromOwnLevel, ruleSlideTablesNotSkipped, ruleGridFromCells, ruleOneHeaderRow, ruleBytesNotRunes, ruleListLevelsZeroToEight, ruleLevelByILvl},
+		Rules: []func(*eng.Ctx){deleteInRangeRule("R15.DR", "model", "htmldoc", "pptx", "rag"), truncateAfterHandOutRule("R15.TR", "htmldoc", "docx", "odt", "pptx", "xlsx", "rag", "model"), rulePipeTablesReadBack, ruleCellEscapersEvaluated, ruleChunkBodyWrittenUnconditionally, ruleTableCellOnOneLine, ruleTextlessItemKeepsNestedLists, ruleHeaderRowNotRepeated, ruleContentStylesWin, ruleFirstRowIsLoopStart, loopVarRule("R15.LV", "model", "docx", "odt", "htmldoc", "pptx", "xlsx", "epubdoc"), ruleCellEscape, ruleHeadingClamp, ruleColumnCount, roleRule("R15.R", "model", "docx", "odt", "htmldoc", "pptx"), ruleHeadingBeforeList, ruleRowCellsComplete, ruleListKindPerLevel, ruleIndentFromOwnLevel, ruleSlideTablesNotSkipped, ruleGridFromCells, ruleOneHeaderRow, ruleBytesNotRunes, ruleListLevelsZeroToEight, ruleLevelByILvl},
 	})
 }
 
